@@ -278,6 +278,8 @@ func estimateExpansion(text string) float64 {
 				if x > 1 {
 					b *= x
 				}
+			} else if u := strings.ToUpper(f); u == "CORESIZE" || u == "MAXLENGTH" || u == "MAXPROCESSES" || u == "MINDISTANCE" {
+				b *= 1e6 // a predefined constant: whatever the configuration says (core sizes go far beyond)
 			} else if !strings.EqualFold(f, "for") {
 				b *= maxLit // unknown identifier: the largest literal of the file
 			}
